@@ -616,6 +616,8 @@ example : ∀ o ∈ cexOps, BoundedOp o := by
 example : CfgOk cexInit where
   raSep := by decide
   chSep := by decide
+  raNe := by decide
+  chNe := by decide
   canon := by
     intro i j rid hi hj
     have one : ∀ k rid, chanRollapp cexInit k = .ok (some rid) → k = 0 := by
